@@ -62,6 +62,7 @@ class Session:
         kw.setdefault('unwind', self.flavor == 'unw')
         eng = ex.Engine(self.modules, **kw)
         eng.hooks['verif_set_generation'] = self._hook_set_generation
+        eng.hooks['verif_slots_all_empty'] = self._hook_slots_all_empty
         self.engines.append(eng)
         return eng
 
@@ -107,6 +108,49 @@ class Session:
         if o is None:
             raise Inconclusive('verif_set_generation before the thread used the crate')
         eng.mem_write(st, o.base + off, 8, args[0], ins, o)
+        return None
+
+    # ---- debt slots of every node (for the 'no borrow slot stays occupied' oracle)
+    def calibrate_slots(self):
+        if getattr(self, 'slot_offs', None) is not None:
+            return self.slot_offs
+        eng = self.engine()
+        found = {}
+
+        def on_mark(eng_, st, ident, value):
+            if ident == 902:
+                for o in st.objs.values():
+                    if o.kind == 'heap' and 'debt/list.rs' in o.name:
+                        found[o.id] = sorted(off for off, (sz, v) in st.mem[o.id].items() if sz == 8 and v == 3)
+        eng.mark_hook = on_mark
+        leaves = eng.explore('calib_node', eng.initial_state())
+        if len(leaves) != 1 or leaves[0].status != 'done' or len(found) != 1:
+            raise Inconclusive('node calibration failed')
+        offs = list(found.values())[0]
+        if len(offs) != 9:
+            raise Inconclusive('node calibration: expected 9 debt slots, found %d' % len(offs))
+        self.slot_offs = offs
+        return offs
+
+    def _hook_slots_all_empty(self, eng, st, fr, ins, args):
+        offs = self.calibrate_slots()
+        bases = [o.base for o in st.objs.values() if o.kind == 'heap' and 'debt/list.rs' in o.name and st.live.get(o.id)]
+        bases += [b for (b, sz, nm) in eng.env.foreign_objs if 'debt/list.rs' in nm]
+        acc = []
+        ok = 1
+        for b in sorted(set(bases)):
+            for off in offs:
+                v = eng.read_cell(st, b + off, 8, 'seq_cst', True, ins)
+                if isinstance(v, int):
+                    if v != 3:
+                        ok = 0
+                else:
+                    acc.append(v == 3)
+        if ok and acc:
+            res = ex.simp(z3.And(*acc)) if len(acc) > 1 else ex.simp(acc[0])
+        else:
+            res = ok
+        fr.regs[ins.dest] = res
         return None
 
     # ---- M1
